@@ -45,6 +45,7 @@ class Engine(ExprMixin, CallMixin, StmtMixin):
         self.ctx_hooks = {}
         self.store_monitors = {}
         self.coerce_hooks = {}
+        self.strgen_hooks = {}
         self.eq_hooks = {}
         self.str_atoms = {}
         self.opaque_defs = {}
